@@ -166,8 +166,9 @@ class NmpfitStrategy(HoloPyObject):
         del self._guess_lnpriors
 
     def minimize(self, parameters, obj_func):
-        if not hasattr(self, "_parameters"):
-            self._parameters = parameters
+        def unscale(values):
+            return [par.unscale(value)
+                    for par, value in zip(parameters, values)]
 
         def scaled_bound(par, bound, inside):
             # unscale(scale(bound)) can land one rounding error outside the
@@ -194,9 +195,9 @@ class NmpfitStrategy(HoloPyObject):
                 d['value'] = min(d['value'], d['limits'][1])
             nmp_pars.append(d)
 
-        def resid_wrapper(parameters, fjac=None):
+        def resid_wrapper(values, fjac=None):
             status = 0
-            out = obj_func(self.unscale_pars_from_minimizer(parameters))
+            out = obj_func(unscale(values))
             return [status, out]
 
         # now fit it
@@ -207,6 +208,6 @@ class NmpfitStrategy(HoloPyObject):
                 xtol = self.xtol, gtol = self.gtol, damp = self.damp,
                 maxiter = self.maxiter, quiet = self.quiet)
 
-        result_pars = self.unscale_pars_from_minimizer(fitresult.params)
+        result_pars = unscale(fitresult.params)
 
         return result_pars, fitresult
